@@ -1,1 +1,4 @@
 pub mod merkle;
+pub mod air_monitor;
+pub mod opnames;
+pub mod tracecols;
